@@ -500,7 +500,7 @@ func walkKinds(t schema.Type, path []string, f func(i int, kind string)) {
 }
 
 func TestC07Codec(t *testing.T) {
-	g := &aval.Gen{S: S, MaxDepth: 4, PlainKeys: true, ExtraKeys: []string{"[system]", "[0]", "[x", "a[1]", "[]"}}
+	g := &aval.Gen{S: S, MaxDepth: 4, PlainKeys: true, SlashSiblings: true, ExtraKeys: []string{"[system]", "[0]", "[x", "a[1]", "[]"}}
 	rec := stats.For("C07")
 	if c, ok := hx.Replay[exclCase]("C07", "exclusion"); ok {
 		if msg, _ := checkExclusion(rec, c); msg != "" {
